@@ -10,8 +10,14 @@ use std::ops::Range;
 use std::rc::Rc;
 use std::sync::atomic::Ordering;
 use std::sync::mpsc::TrySendError;
+#[cfg(not(raindb_verif))]
 use std::sync::{mpsc, Arc};
+#[cfg(not(raindb_verif))]
 use std::thread::{self, JoinHandle};
+#[cfg(raindb_verif)]
+use std::sync::Arc;
+#[cfg(raindb_verif)]
+use parking_lot::verif_rt::{mpsc, thread::{self, JoinHandle}};
 use std::time::{Duration, Instant};
 
 use crate::compaction::errors::CompactionWorkerError;
@@ -88,6 +94,10 @@ impl CompactionWorker {
         let background_thread_handle = thread::Builder::new()
             .name(COMPACTION_THREAD_NAME.to_string())
             .spawn(move || {
+                // Under verification a panic of this thread is recorded (and then resumed) so the
+                // harness can classify it instead of only seeing a dead thread.
+                #[cfg(raindb_verif)]
+                let _verif_panic_recorder = crate::verif::BackgroundPanicRecorder;
                 log::info!("Compaction thread initializing.");
                 let database_state = db_state;
                 let mut task_queue: VecDeque<TaskKind> = VecDeque::new();
@@ -729,6 +739,7 @@ impl CompactionWorker {
                     }
 
                     file_iterator.next();
+                    verif_point!("compact.entry");
                 }
 
                 Ok(file_iterator)
